@@ -53,7 +53,7 @@ EP_URL = "http://sim.test/sparql"
 
 def gen_case(rng, tier):
     channel = rng.choice(["nt", "nt", "tsv", "turtle_iter", "turtle", "turtle", "xml", "json-ld", "rdflib_graph", "rdflib_graph",
-                          "endpoint_on", "endpoint_off", "endpoint_off", "endpoint_deep", "endpoint_deep", "shape_map_local"])
+                          "endpoint_on", "endpoint_off", "endpoint_off", "endpoint_deep", "endpoint_deep", "endpoint_mixed", "nt_mixed", "nt_mixed", "shape_map_local"])
     endpoint = channel.startswith("endpoint")
     kinds = ("node", "str", "int", "iri", "iri2") if (endpoint or channel == "turtle_iter") else ("node", "str", "int", "lang", "date", "iri", "iri2", "cdt")
     n_nodes = rng.choice([3, 4, 6, 8, 10]) if tier == "quick" else rng.choice([3, 4, 6, 8, 10, 16, 24])
@@ -63,7 +63,18 @@ def gen_case(rng, tier):
     tp = gen.CUSTOM_TYPE if rng.random() < 0.12 else gen.RDF_TYPE
     triples = gen.retype(gen.ensure_class(triples), tp)
     allow_sm = channel in ("nt", "endpoint_on", "endpoint_off", "shape_map_local", "rdflib_graph")
-    if channel == "endpoint_deep":
+    if channel == "nt_mixed":
+        # plain node selectors need no query (nothing passes through the rdflib store), all_classes_mode adds every
+        # other typed node through the class tracker: the mixed tracker merges the two
+        iris = sorted({t[0][1] for t in triples if t[0][0] == "i" and t[0][1].startswith("http")})
+        picked = rng.sample(iris, min(len(iris), rng.randint(1, 2)))
+        target = {"shape_map_raw": "\n".join("<%s>@<http://sh.org/S%d>" % (x, j) for j, x in enumerate(picked)),
+                  "all_classes_mode": True}
+    elif channel == "endpoint_mixed":
+        # a one- or two-item shape map plus all_classes_mode: most instances reach the (mixed) tracker through the
+        # class tracker only, the others through both
+        target = {"shape_map_raw": gen.gen_shape_map(rng, triples, n_items=rng.randint(1, 2), type_prop=tp), "all_classes_mode": True}
+    elif channel == "endpoint_deep":
         # neighbours of the selected nodes are explored too (depth 2; endpoint answers count as IRIs only with strict
         # corners) and become instances themselves through all_classes_mode
         target = {"shape_map_raw": gen.gen_shape_map(rng, triples, type_prop=tp), "all_classes_mode": True}
@@ -102,7 +113,7 @@ def materialise(case):
     """the exact bytes every child will read (computed in the parent only)"""
     triples = [gen.T(t) for t in case["graph"]]
     ch = case["channel"]
-    if ch in ("nt", "shape_map_local", "endpoint_on", "endpoint_off", "endpoint_deep", "rdflib_graph"):
+    if ch in ("nt", "nt_mixed", "shape_map_local", "endpoint_on", "endpoint_off", "endpoint_deep", "endpoint_mixed", "rdflib_graph"):
         return gen.to_nt(triples)
     if ch == "tsv":
         return gen.to_tsv(triples)
@@ -141,7 +152,7 @@ def _case_kwargs(case, sim):
     kw["namespaces_dict"] = copy.deepcopy(case["ns"])
     ch = case["channel"]
     doc = case["doc"]
-    if ch in ("nt", "shape_map_local"):
+    if ch in ("nt", "shape_map_local", "nt_mixed"):
         kw["raw_graph"] = doc
     elif ch == "tsv":
         kw["raw_graph"] = doc
@@ -156,7 +167,7 @@ def _case_kwargs(case, sim):
         g = rdflib.Graph()
         g.parse(data=doc, format="nt")
         kw["rdflib_graph"] = g
-    elif ch in ("endpoint_on", "endpoint_off", "endpoint_deep"):
+    elif ch in ("endpoint_on", "endpoint_off", "endpoint_deep", "endpoint_mixed"):
         triples = [gen.T(t) for t in case["graph"]]
         sim.set_endpoint(SimEndpoint(sim, triples, row_seed=0, canonical_rows=True))
         kw["url_endpoint"] = EP_URL
